@@ -2695,6 +2695,8 @@ func (d *Document) parseRun(decoder *xml.Decoder, startElement xml.StartElement)
 	run := &Run{
 		Text: Text{},
 	}
+	// 注音（w:ruby）把正文和注音文字放在嵌套的 w:r 里：它们的文字算作这个Run的文字
+	nestedRuns := 0
 
 	for {
 		token, err := decoder.Token()
@@ -2705,7 +2707,18 @@ func (d *Document) parseRun(decoder *xml.Decoder, startElement xml.StartElement)
 		switch t := token.(type) {
 		case xml.StartElement:
 			switch t.Name.Local {
+			case "ruby", "rt", "rubyBase":
+				// 继续读里面的内容
+			case "r":
+				nestedRuns++
 			case "rPr":
+				if nestedRuns > 0 {
+					// 嵌套Run自己的格式不覆盖外层Run的格式
+					if err := d.skipElement(decoder, t.Name.Local); err != nil {
+						return nil, err
+					}
+					break
+				}
 				// 解析运行属性
 				if err := d.parseRunProperties(decoder, run); err != nil {
 					return nil, err
@@ -2758,6 +2771,10 @@ func (d *Document) parseRun(decoder *xml.Decoder, startElement xml.StartElement)
 			}
 		case xml.EndElement:
 			if t.Name.Local == "r" {
+				if nestedRuns > 0 {
+					nestedRuns--
+					continue
+				}
 				return run, nil
 			}
 		}
